@@ -90,9 +90,53 @@ def replay(ctx, path, mode):
     """Re-executes one reported witness (a confirm record) on a freshly parsed rule."""
     ctx.build()
     obj = json.load(open(path))
+    if obj.get("reexec") == ["drive-shortcut"]:
+        tr = os.path.join(ctx.work, "shortcut-trace.ndjson")
+        e = obj["event"]
+        ctx.seed = obj.get("seed", 1)
+        ctx.vh(["drive-shortcut", "n=%d" % (300 if ctx.tier == "quick" else 6000), "out=" + tr], timeout=3000)
+        nev, rejects = ctx.validate_trace("Trace_Shortcut", tr, chunk=6000, procs=4)
+        events = vf.read_ndjson(tr)
+        hit = [rj for rj in rejects if events[rj["l"] - 1]["text"] == e["text"] and events[rj["l"] - 1]["variant"] == e["variant"]]
+        print(json.dumps({"rejected_again": len(hit), "all_rejects": len(rejects)}))
+        return 1 if hit else 0
     cp = os.path.join(ctx.work, "case.json")
     with open(cp, "w") as f:
         json.dump(obj["case"], f)
     r = ctx.vh(["replay-prog", "mode=" + mode, "in=" + cp])
     print(json.dumps(r, indent=1))
     return 1 if r["violates_again"] else 0
+
+
+def request_side(ctx, prop_note):
+    """code -> spec, the request side: every sampled pattern instantiated into 7 URLs (plain, mixed/upper case, match behind /
+    across / before the 4 KiB cut, long tail) -> NewRequest -> Match with and without the shortcut, validated by
+    Trace_Shortcut (the two answers agree, URLLowerCase is the lower-cased URL, short URLs: the answer is Mask!Accepts)."""
+    ev0, val0, non0 = ctx.evaluations, ctx.validated, ctx.nontrivial
+    # ---- code -> spec: the request side (the two fields of a real request are one text; long and mixed-case URLs) ----
+    tr = os.path.join(ctx.work, "shortcut-trace.ndjson")
+    d = ctx.vh(["drive-shortcut", "n=%d" % (300 if ctx.tier == "quick" else 6000), "out=" + tr], timeout=3000)
+    if d["panics"]:
+        raise vf.Inconclusive("drive-shortcut saw %d panics" % d["panics"])
+    nev, rejects = ctx.validate_trace("Trace_Shortcut", tr, chunk=(3000 if ctx.tier == "quick" else 6000), procs=(2 if ctx.tier == "quick" else 8))
+    ctx.evaluations, ctx.validated, ctx.nontrivial = ev0 + nev, val0 + nev - len(rejects), non0 + d["matches"]
+    ctx.extra["request_events"] = nev
+    ctx.extra["request_events_accepting"] = d["matches"]
+    ctx.extra["request_events_over_4KiB"] = d["long_urls"]
+    for t in d["samples"][:3]:
+        ctx.sample({"request_event": t})
+    ctx.rule += (prop_note + "; request side: every sampled pattern instantiated into 7 URLs (plain, mixed/upper case, match behind / across / before "
+                 "the 4 KiB cut, long tail) -> NewRequest -> Match with and without the shortcut, validated by Trace_Shortcut")
+    if rejects:
+        events = vf.read_ndjson(tr)
+        done = set()
+        for rj in rejects:
+            e = events[rj["l"] - 1]
+            k = (e["text"], e["variant"], rj["why"])
+            if k in done or len(done) > 60:
+                continue
+            done.add(k)
+            ctx.report("rule %r on a %d-byte URL (%s): %s: spec %s, code %s" % (e["text"], e["url_len"], e["variant"], rj["why"], rj["spec"], rj["code"]),
+                       {"reexec": ["drive-shortcut"], "event": e, "seed": ctx.seed}, {"cause": "request-side", "kind": rj["why"]})
+
+
